@@ -38,3 +38,82 @@ Proof. vm_compute. reflexivity. Qed.
 Lemma both_places_are_searched :
   existsb (fun e => fst (fst e)) file_order = true /\ existsb (fun e => negb (fst (fst e))) file_order = true.
 Proof. vm_compute. split; reflexivity. Qed.
+
+(* ------------------------------------------------------------------ what the order means for the loaded values *)
+From BV Require Import ConfigProofs.
+
+Definition in_home_slot (slot : bool * ustr * fkind) : bool := fst (fst slot).
+
+Lemma all_project_filter l :
+  home_then_project true l = true -> filter in_home_slot l = [] /\ filter (fun s => negb (in_home_slot s)) l = l.
+Proof.
+  induction l as [|[[h n] k] r IH]; intros H; [split; reflexivity|].
+  cbn [home_then_project] in H. destruct h; [discriminate|]. destruct (IH H) as [A B].
+  cbn [filter in_home_slot fst negb]. rewrite A, B. split; reflexivity.
+Qed.
+
+(* a search order that passes the check is: all home entries, then all current-directory entries *)
+Lemma home_then_project_split l :
+  home_then_project false l = true ->
+  l = filter in_home_slot l ++ filter (fun s => negb (in_home_slot s)) l.
+Proof.
+  induction l as [|[[h n] k] r IH]; intros H; [reflexivity|].
+  cbn [home_then_project] in H. destruct h.
+  - cbn [negb andb] in H. cbn [filter in_home_slot fst negb app]. f_equal. now apply IH.
+  - destruct (all_project_filter r H) as [A B].
+    cbn [filter in_home_slot fst negb]. rewrite A, B. reflexivity.
+Qed.
+
+Definition slot_files (home : ustr) (files : list (bool * ustr * filedata)) (slot : bool * ustr * fkind)
+  : list (ustr * filedata) :=
+  let '(in_home, name, kind) := slot in
+  match find_file (in_home, name) files with
+  | None => []
+  | Some f => match kind with KNone => [] | _ => [(if in_home then home else [46%N], f)] end
+  end.
+
+(* the configuration files found in the home directory / in the current directory, in search order *)
+Definition present_home (home : ustr) files := flat_map (slot_files home files) (filter in_home_slot file_order).
+Definition present_project (home : ustr) files :=
+  flat_map (slot_files home files) (filter (fun s => negb (in_home_slot s)) file_order).
+
+Lemma present_is_home_then_project home files :
+  present home files = present_home home files ++ present_project home files.
+Proof.
+  unfold present_home, present_project. rewrite <- flat_map_app.
+  rewrite <- (home_then_project_split file_order project_files_are_read_after_home_files). reflexivity.
+Qed.
+
+Lemma last_file_value_app k a b :
+  last_file_value k (a ++ b) =
+  match last_file_value k b with Some v => Some v | None => last_file_value k a end.
+Proof. unfold last_file_value at 1. rewrite fold_left_app. apply last_file_value_from. Qed.
+
+Lemma Forall2_app_inv_l' {A B} (R : A -> B -> Prop) l1 l2 l :
+  Forall2 R (l1 ++ l2) l -> exists a b, l = a ++ b /\ Forall2 R l1 a /\ Forall2 R l2 b.
+Proof.
+  revert l. induction l1 as [|x l1 IH]; intros l H; cbn [app] in H.
+  - exists [], l. repeat split; [constructor|exact H].
+  - inversion H as [|x' y l' r Hxy Hr]; subst. destruct (IH _ Hr) as (a & b & -> & Fa & Fb).
+    exists (y :: a), b. repeat split; [constructor; assumption|exact Fb].
+Qed.
+
+(* the value of an option after all files are read: what the last file of the current directory that assigns
+   it says; only when none does, what the last such file of the home directory says; else the built-in default *)
+Theorem project_files_win_over_home_files home files defs :
+  load_configuration home files = inl defs ->
+  exists hdatas pdatas,
+    Forall2 (fun df d => read_file (fst df) (snd df) = inl d) (present_home home files) hdatas /\
+    Forall2 (fun df d => read_file (fst df) (snd df) = inl d) (present_project home files) pdatas /\
+    forall k, ns_get k defs =
+      match last_file_value k pdatas with
+      | Some v => Some v
+      | None => match last_file_value k hdatas with Some v => Some v | None => ns_get k class_defaults end
+      end.
+Proof.
+  intros H. destruct (load_configuration_spec _ _ _ H) as (datas & F & ->).
+  rewrite present_is_home_then_project in F.
+  destruct (Forall2_app_inv_l' _ _ _ _ F) as (a & b & -> & Fa & Fb).
+  exists a, b. repeat split; try assumption. intros k.
+  rewrite merged_get, last_file_value_app. destruct (last_file_value k b); reflexivity.
+Qed.
